@@ -168,6 +168,19 @@ def kernels():
       "  cbv [out_point c_apex argmax pv map fold_left argmax_step vdot vx vy vz]; rops.\n  %s.\n  reflexivity. Qed."
       % (P3o, decide), {"shape": [3], "data": ["e"] * 3}, perturb=1e-9)
 
+    # aligned_with through vg.project / vg.scale_factor: the traced comparisons are literally the model's two tests
+    # (zero projection, sign of the scale factor); the model's extra NaN test (zero vector) is excluded by the path
+    for name, a in (("aligned_with_flip", [-1.0, -2.0, 0.5]), ("aligned_with_keep", [1.0, 0.0, 0.5])):
+        K(name, {"v": V3, "a": a}, lambda v, a: Polyline(v).aligned_with(a).v,
+          "Lemma {T}_ok : forall {vars} : R, {T}_path ROps {vars} -> {T} ROps {vars} = out_poly (c_aligned ROps %s (V3 a0 a1 a2)).\n"
+          "Proof. intros {vars} Hpath. unfold {T}_path in Hpath; rops. destruct Hpath as [H1 [H2 _]]. pose proof H1 as H1'.\n"
+          "  assert (Hn : sqrt (a0 * a0 + a1 * a1 + a2 * a2) <> 0).\n"
+          "  { intros Hn. apply Reqb_false in H1'. apply H1'. apply sqrt_eq_0 in Hn; [|nra].\n"
+          "    assert (a0 = 0 /\\ a1 = 0 /\\ a2 = 0) as [-> [-> ->]] by (repeat split; nra). unfold Rdiv. ring. }\n"
+          "  apply Reqb_false in Hn. unfold {T}.\n"
+          "  cbv [out_poly c_aligned pclosed pv length Nat.ltb Nat.leb last vsub vnorm vnorm2 vdot vdivs vscale n0 vx vy vz];\n"
+          "  rops. rewrite Hn, H1, H2. reflexivity. Qed." % P3o, _E(3), perturb=1e-9)
+
     # index_of_vertex: first of two matching rows; the tolerance literal the code uses is the double 1e-08
     atol = Fr(1e-08)
     ATOL = "(nfrac ROps (%d) (%d))" % (atol.numerator, atol.denominator)
